@@ -535,3 +535,60 @@ def _assigned_before(fn: ast.FunctionDef, name: str, line: int) -> bool:
             if n in fn.body:
                 return True
     return False
+
+
+# ------------------------------------------------------------------------------------------ R-CONSTANTS
+def rule_constants(ctx: Ctx, prog: Program, want: Tuple[str, ...] = ("events", "status", "axes", "stats")) -> None:
+    """The engine's protocol constants are a vocabulary: event bits must be three distinct single bits and the combined masks their unions;
+    the three answers of a propagator (and of a pass) must be pairwise distinct; the two positions of every 2-wide axis must be 0 and 1; the
+    statistics indices must be a permutation of 0..STATS_MAX-1.  Two names folding to the same value merge two protocol states."""
+    ctx.rule("R-CONSTANTS")
+    C = prog.C
+    path = "nucs/constants.py"
+
+    def bad(key: str, msg: str) -> None:
+        ctx.violation("R-CONSTANTS", path, "<module>", key, f"{path}:1", msg)
+
+    if "events" in want:
+        b = {n: C(f"EVENT_MASK_{n}") for n in ("MIN", "MAX", "GROUND")}
+        single = all(isinstance(v, int) and v > 0 and v & (v - 1) == 0 for v in b.values())
+        if not single or len(set(b.values())) != 3:
+            bad("events:bits", f"the event bits are not three distinct single bits: {b}")
+        else:
+            ctx.ok("R-CONSTANTS", "event bits are three distinct single bits", sample=b)
+        combos = {"MIN_MAX": ("MIN", "MAX"), "MIN_GROUND": ("MIN", "GROUND"), "MAX_GROUND": ("MAX", "GROUND"), "MIN_MAX_GROUND": ("MIN", "MAX", "GROUND")}
+        for nm, parts in combos.items():
+            want_v = 0
+            for p_ in parts:
+                want_v |= b[p_]
+            got = C(f"EVENT_MASK_{nm}")
+            if got != want_v:
+                bad(f"events:{nm}", f"EVENT_MASK_{nm} is {got}, not the union of {'|'.join(parts)} ({want_v}): a decision or a write-back announced with it wakes the wrong watchers")
+            else:
+                ctx.ok("R-CONSTANTS", f"EVENT_MASK_{nm} = " + " | ".join(parts), nontrivial=False)
+    if "status" in want:
+        for fam, names in (("PROP", ("PROP_INCONSISTENCY", "PROP_CONSISTENCY", "PROP_ENTAILMENT")), ("PROBLEM", ("PROBLEM_INCONSISTENT", "PROBLEM_UNBOUND", "PROBLEM_BOUND"))):
+            vals = {n: C(n) for n in names}
+            if len(set(vals.values())) != 3:
+                bad(f"status:{fam}", f"the three {fam}_* answers are not pairwise distinct: {vals}")
+            else:
+                ctx.ok("R-CONSTANTS", f"{fam}_* answers pairwise distinct", sample=vals)
+    if "axes" in want:
+        for a_, b_ in (("MIN", "MAX"), ("RG_START", "RG_END"), ("DOM_UPDATE_IDX", "DOM_UPDATE_EVENTS")):
+            if {C(a_), C(b_)} != {0, 1}:
+                bad(f"axes:{a_}", f"{a_} / {b_} are {C(a_)} / {C(b_)}: the two positions of a 2-wide axis must be 0 and 1")
+            else:
+                ctx.ok("R-CONSTANTS", f"{a_}/{b_} are the two positions of a 2-wide axis", nontrivial=False)
+    if "stats" in want:
+        m = prog.modules.get(f"{prog.package}.constants")
+        idx = {n: v for n, v in (m.consts.items() if m else []) if n.startswith("STATS_IDX_")}
+        mx = C("STATS_MAX")
+        if sorted(idx.values()) != list(range(mx)):
+            bad("stats:indices", f"the statistics indices are not a permutation of 0..STATS_MAX-1 ({sorted(idx.values())} vs {mx})")
+        else:
+            ctx.ok("R-CONSTANTS", f"{len(idx)} statistics indices = 0..STATS_MAX-1", sample={"STATS_MAX": mx})
+        lbl = {n: v for n, v in (m.consts.items() if m else []) if n.startswith("STATS_LBL_")}
+        if len(set(lbl.values())) != len(lbl) or len(lbl) != mx:
+            bad("stats:labels", f"the statistics labels are not {mx} distinct strings")
+        else:
+            ctx.ok("R-CONSTANTS", "statistics labels distinct", nontrivial=False)
